@@ -134,6 +134,14 @@ package fptower
 //@ modifies z
 //@ end
 
+//@ func E2.Inverse
+//@ layer ring fp.Element
+//@ option distribute
+//@ ensures[inverse] qmul(13, vec(z), old(vec(x))) == svec(2, 0, qnorm(13, old(vec(x))) * inv(qnorm(13, old(vec(x)))))
+//@ ensures[result] result == z
+//@ modifies z
+//@ end
+
 // ---------------- E4 over E2 ----------------
 
 //@ func E4.Mul
@@ -153,6 +161,14 @@ package fptower
 //@ func E4.MulByNonResidue
 //@ layer ring E2
 //@ ensures[value] vec(z) == qmul(NR_E2, svec(2, 1, 1), old(vec(x)))
+//@ ensures[result] result == z
+//@ modifies z
+//@ end
+
+//@ func E4.Inverse
+//@ layer ring E2
+//@ option distribute
+//@ ensures[inverse] qmul(NR_E2, vec(z), old(vec(x))) == svec(2, 0, qnorm(NR_E2, old(vec(x))) * inv(qnorm(NR_E2, old(vec(x)))))
 //@ ensures[result] result == z
 //@ modifies z
 //@ end
@@ -207,6 +223,14 @@ package fptower
 //@ end
 
 // ---------------- E12 over E4 ----------------
+
+//@ func E12.Inverse
+//@ layer ring E4
+//@ option distribute
+//@ ensures[inverse] qmul(NR_E4, vec(z), old(vec(x))) == svec(3, 0, qnorm(NR_E4, old(vec(x))) * inv(qnorm(NR_E4, old(vec(x)))))
+//@ ensures[result] result == z
+//@ modifies z
+//@ end
 
 //@ func E12.Mul
 //@ layer ring E4
@@ -292,6 +316,14 @@ package fptower
 //@ func E24.Square
 //@ layer ring E12
 //@ ensures[value] vec(z) == qsq(NR_E12, old(vec(x)))
+//@ ensures[result] result == z
+//@ modifies z
+//@ end
+
+//@ func E24.Inverse
+//@ layer ring E12
+//@ option distribute
+//@ ensures[inverse] qmul(NR_E12, vec(z), old(vec(x))) == svec(2, 0, qnorm(NR_E12, old(vec(x))) * inv(qnorm(NR_E12, old(vec(x)))))
 //@ ensures[result] result == z
 //@ modifies z
 //@ end
